@@ -69,6 +69,12 @@ func (v *Vue) evaluate(ctx VueContext, nodes []*html.Node, depth int) ([]*html.N
 				continue
 			}
 
+			// Skip v-else-if and v-else that are not consumed by a preceding v-if chain or empty v-for,
+			// also when they carry a v-for of their own
+			if !helpers.HasAttr(node, "v-if") && (helpers.HasAttr(node, "v-else-if") || helpers.HasAttr(node, "v-else")) {
+				continue
+			}
+
 			if helpers.HasAttr(node, "v-for") {
 				chainResult, skipCount, err := v.evalVFor(ctx, node, nodes[i:], depth)
 				if err != nil {
@@ -99,12 +105,6 @@ func (v *Vue) evaluate(ctx VueContext, nodes []*html.Node, depth int) ([]*html.N
 				result = append(result, chainResult...)
 				// Skip past the v-else-if and v-else nodes that were part of this chain
 				i += skipCount
-				continue
-			}
-
-			// Skip v-else-if and v-else if they appear without v-if
-			// (they should be handled as part of a chain)
-			if helpers.HasAttr(node, "v-else-if") || helpers.HasAttr(node, "v-else") {
 				continue
 			}
 
